@@ -115,6 +115,29 @@ def presets():
     return dict(("spin%d" % i, getattr(B, "spin%d_boot_options" % i, None)) for i in range(1, 6))
 
 
+PINNED_MTIME = 1474848000
+
+
+def put_file(key, prefix, content, paths, tmp):
+    """Write the file a call names.  Without a key every call gets a file of its own; calls with the same key
+    name the SAME path, which is rewritten in place before each of them (what a user does when a rebuilt image
+    or struct file replaces the old one) with its modification time pinned to one and the same second."""
+    if key is None or key not in paths:
+        f = tempfile.NamedTemporaryFile(dir=".", prefix=prefix, delete=False)
+        f.close()
+        tmp.append(f.name)
+        if key is not None:
+            paths[key] = f.name
+        name = f.name
+    else:
+        name = paths[key]
+    with open(name, "wb") as f:
+        f.write(content)
+    if key is not None:
+        os.utime(name, (PINNED_MTIME, PINNED_MTIME))
+    return name
+
+
 def run_history(h):
     B.socket = FakeSocketModule()
     B.time = FakeTimeModule()
@@ -122,22 +145,16 @@ def run_history(h):
     pres = presets()
     out = dict(presets_before=dict((k, items(v)) for k, v in pres.items() if v is not None), calls=[])
     tmp = []
+    paths = {}
     try:
         for c in h["calls"]:
             REC.reset(c["times"])
             kw = {}
             if c["image"]["kind"] != "bundled":
-                f = tempfile.NamedTemporaryFile(dir=".", prefix="c20img", delete=False)
-                f.write(image_bytes(c["image"]))
-                f.close()
-                tmp.append(f.name)
-                kw["scamp_binary"] = f.name
+                kw["scamp_binary"] = put_file(c.get("image_path"), "c20img", image_bytes(c["image"]), paths, tmp)
             if c["struct"]["kind"] != "bundled":
-                f = tempfile.NamedTemporaryFile(dir=".", prefix="c20struct", delete=False)
-                f.write(c["struct"]["text"].encode("ascii"))
-                f.close()
-                tmp.append(f.name)
-                kw["sark_struct"] = f.name
+                kw["sark_struct"] = put_file(c.get("struct_path"), "c20struct", c["struct"]["text"].encode("ascii"),
+                                             paths, tmp)
             passed = None
             ov = c["overrides"]
             if ov is not None:
